@@ -48,7 +48,7 @@ func verifCopyList(l []*Rule) []*Rule {
 func verifValid(l []*Rule, res string, any bool) []Rule {
 	var out []Rule
 	for _, r := range l {
-		if r != nil && (any || r.Resource == res) && IsValidRule(r) == nil {
+		if r != nil && (any || r.Resource == res) && verifIsValid(r) {
 			out = append(out, *r)
 		}
 	}
@@ -124,4 +124,11 @@ func VerifC13() {
 		rt.Assert(len(GetRules()) == total, "GetRules reports exactly the enforced rules")
 	}
 	rt.Reach("c13.done")
+}
+
+// verifIsValid asks the module's validity check about a throw-away copy: the reference must not depend on
+// (or be changed by) anything the check does to the object it is given.
+func verifIsValid(r *Rule) bool {
+	c := *r
+	return IsValidRule(&c) == nil
 }
